@@ -110,7 +110,7 @@ def systematic(ctx, arm):
                 u0 = zval(model, d())
         return {"replayer": "c06_systematic", "input": {"size": size, "w": w, "u0": u0 if u0 is not None else 0.5}}
 
-    ctx.verify(arm, TOOLS, "systematic_resample", setup, post, witness=witness,
+    ctx.verify(arm, TOOLS, "systematic_resample", setup, post, witness=witness, replayer="c06_systematic",
                loops={0: LoopSpec(outer_rec, label="comb"), 1: LoopSpec(inner, label="advance")})
 
 
